@@ -679,6 +679,14 @@ func runHistory(t *testing.T, h *History) (lines []string) {
 		raceMode := os.Getenv("VERIF_RACE") == "1"
 		doExchange := func(n int, op Op) {
 			ctx, cancel := context.WithCancel(context.WithValue(context.Background(), exKey{}, n))
+			if d, ok := strings.CutPrefix(op.Cancel, "dl:"); ok {
+				// the caller's own deadline, d nanoseconds from now
+				ns, _ := strconv.ParseInt(d, 10, 64)
+				inner := cancel
+				var c2 context.CancelFunc
+				ctx, c2 = context.WithTimeout(ctx, time.Duration(ns))
+				cancel = func() { c2(); inner() }
+			}
 			cancels[n] = cancel
 			if op.Cancel == "before" {
 				cancel()
@@ -729,6 +737,16 @@ func runHistory(t *testing.T, h *History) (lines []string) {
 				hdrs := encHeader(resp.Header)
 				rs.noteDates(resp.Header)
 				ownMu.Lock()
+				// a response belongs to its caller: no two calls may be handed the same header map
+				if resp.Header != nil {
+					hp := reflect.ValueOf(resp.Header).Pointer()
+					for _, o := range returned {
+						if o.resp.Header != nil && reflect.ValueOf(o.resp.Header).Pointer() == hp {
+							rs.emit("O\tSHARE\t%d\tresponse-header-of-exchange-%d", n, o.n)
+							break
+						}
+					}
+				}
 				returned = append(returned, owned{n, resp, hdrs})
 				ownMu.Unlock()
 				if raceMode {
